@@ -19,7 +19,7 @@ RULE = ("[family `provisional`: fixed-width operands over backward labels whose 
         "model's, and must never be a panic, abort or time-out. non-trivial = the reply is an error")
 EXHAUSTIVE = {"quick": False, "thorough": False}
 ASSUMPTIONS = ["machine stack depth is outside the model: inputs nested tens of thousands deep (D16) are a listed finding, kept out of the random streams by generator bounds",
-               "the pair-tree shape the parse layer relies on is proved for the parser MODEL (C14_parse); that the walk's fuel 4*len+100 suffices is exercised, not proved"]
+               "the pair-tree shape the parse layer relies on and the sufficiency of the walk's fuel are proved for the parser MODEL (C14_parse)"]
 
 VOCAB = ["push1", "push2", "push32", "push0", "pc", "jumpdest", "%push", "%macro", "%end", "%def", "%import", "%include",
          "%include_hex", "(", ")", ",", ":", ";", "\n", "\n", " ", "a", "b", "lbl", "$x", "0x00", "0x", "0b1", "0o7", "12", "-3",
@@ -105,7 +105,7 @@ def nontrivial(case, reply):
 MANIFEST = {
     "text": "Proof: every unwrap/expect/assert/panic!/unreachable! of parse/*.rs, asm.rs, ops.rs, ops/expression.rs, ops/macros.rs and ingest.rs "
             "is an explicit panic outcome of the models; for EVERY source text the parser model (pest interpreter over the regenerated "
-            "grammar + pair-tree walk) reaches none of its 23 distinct unwrap/unreachable!/assert! sites (C14_parse; the walk's own fuel marker is the one exception allowed, its sufficiency is exercised); assemble never yields one (other than the model's own fuel "
+            "grammar + pair-tree walk) reaches none of its 23 distinct unwrap/unreachable!/assert! sites and never runs out of its own fuel (C14_parse: no panic outcome at all, for every text); assemble never yields one (other than the model's own fuel "
             "marker) for any item list — recursive and mis-applied macros, division by zero, negative and out-of-range operands "
             "included; and it TERMINATES: with fuel above the explicit bound 257 * (opsSize + 2) the fuel marker cannot appear either "
             "(C14_terminates; more fuel never changes an answer, C14_fuel_monotone), because macro nesting is cut off after 255 levels "
